@@ -409,6 +409,10 @@ Section GenInst.
   Variable a : idx -> A.                   (* the component *)
 
   Definition garr : Type := (list Z * (idx -> A))%type.
+  (* glue.utils.unbroadcast on a data array: the stride-0 axes are cut to length 1.  Which axes have stride 0 is a property of the
+     component (pixel coordinates, stored np.broadcast_to arrays), so the operation is a parameter here; bc_unbroadcast below is
+     its concrete form for a list of flags. *)
+  Variable unb : garr -> garr.
   Definition gmarr : Type := (list Z * (idx -> bool))%type.
   Definition gres : Type := (list Z * (idx -> res))%type.
 
@@ -441,7 +445,7 @@ Section GenInst.
   (* m[slices] for slices slice(lo, hi) inside the array (the only ones the skeleton builds) *)
   Definition g_mask_getitem (m : gmarr) (sl : list slice) : gmarr :=
     (map (fun s => sl_hi s - sl_lo s) sl, fun j => snd m (zadd j (map sl_lo sl))).
-  Definition g_compute_statistic (_ : unit) (d : garr) (m : option gmarr) (ax : pyaxis) (finite positive : bool) (_ : unit) : gres :=
+  Definition g_compute_statistic (_ : Z) (d : garr) (m : option gmarr) (ax : pyaxis) (finite positive : bool) (_ : unit) : gres :=
     let red := red_of_axes (zlen (fst d)) (axes_of ax) in
     let filt := filt_of finite positive in
     (out_shape (fst d) red,
@@ -452,27 +456,42 @@ Section GenInst.
     (fst x, fun o => if inside bounds o then snd v (zsub_starts o bounds) else snd x o).
 
   Local Notation WITH_OPS f :=
-    (f unit unit selection unit garr gmarr gres shape
-      g_get_data g_is_slice_state g_truthy g_to_mask g_to_array (fun m : gmarr => m) (fun d : garr => d) g_any g_ndim (@fst (list Z) (idx -> bool))
+    (f Z unit selection unit garr gmarr gres shape (fun st : Z => st)
+      g_get_data g_is_slice_state g_truthy g_to_mask g_to_array (fun m : gmarr => m) unb g_any g_ndim (@fst (list Z) (idx -> bool))
       g_any_axes g_broadcast_to g_where0 list_min list_max g_mask_getitem
       (fun _ : garr => false) (fun d : garr => d) (fun d : garr => zprod (fst d)) (fun (d : garr) (m : option gmarr) (_ : option Z) => (d, m))
       g_compute_statistic (fun r : gres => zlen (fst r)) (([], fun _ => nan) : gres) (fun sh => ((sh, fun _ => nan) : gres))
       (fun sh => ((sh, fun _ => zero) : gres)) (fun r : gres => ((fst r, fun _ => nan) : gres)) g_setitem).
 
-  Definition g_rec_t : Type := rec_t unit unit selection unit gres.
+  Definition g_rec_t : Type := rec_t Z unit selection unit gres.
   (* the loop bodies and the function body of the generated file, on the model's arrays *)
   Definition g_loop1 : gmarr -> gmarr -> list slice -> Z -> list slice :=
     compute_statistic_loop1 gmarr g_ndim (@fst (list Z) (idx -> bool)) g_any_axes g_broadcast_to g_where0 list_min list_max.
   Definition g_loop2 : pyview -> list slice -> gmarr -> list ventry * Z * bool * bool -> Z -> list ventry * Z * bool * bool :=
     compute_statistic_loop2 gmarr shape (@fst (list Z) (idx -> bool)).
-  Definition gen_step (rec : g_rec_t) (fuel : nat) (s : selection) (ax : pyaxis) (finite positive : bool) (v : pyview) (ncm : Z)
+  Definition gen_step (rec : g_rec_t) (fuel : nat) (st : Z) (s : selection) (ax : pyaxis) (finite positive : bool) (v : pyview) (ncm : Z)
     : result gres :=
-    WITH_OPS Gen_stat.compute_statistic_step rec fuel tt tt s ax finite positive tt v None ncm.
+    WITH_OPS Gen_stat.compute_statistic_step rec fuel st tt s ax finite positive tt v None ncm.
   Definition gen_rec (rfuel fuel : nat) : g_rec_t := WITH_OPS Gen_stat.compute_statistic rfuel fuel.
-  Definition gen_compute_statistic (rfuel fuel : nat) (s : selection) (ax : pyaxis) (finite positive : bool) (v : pyview) (ncm : Z)
+  Definition gen_compute_statistic (rfuel fuel : nat) (st : Z) (s : selection) (ax : pyaxis) (finite positive : bool) (v : pyview) (ncm : Z)
     : result gres :=
-    gen_rec rfuel fuel tt tt s ax finite positive tt v None ncm.
+    gen_rec rfuel fuel st tt s ax finite positive tt v None ncm.
 End GenInst.
+
+(* unbroadcast for a component whose stride-0 axes (of the array it is applied to) are flagged *)
+Fixpoint bc_shape (bc : list bool) (sh : list Z) : list Z :=
+  match bc, sh with
+  | b :: bc', n :: sh' => (if b then Z.min 1 n else n) :: bc_shape bc' sh'
+  | _, _ => sh
+  end.
+Definition bc_unbroadcast {A : Type} (bc : list bool) (d : list Z * (list Z -> A)) : list Z * (list Z -> A) := (bc_shape bc (fst d), snd d).
+(* the flags of the axes that survive a view (integer entries remove their axis) *)
+Fixpoint bc_view (sels : list axis_sel) (bc : list bool) : list bool :=
+  match sels, bc with
+  | Fixed _ :: r, _ :: bc' => bc_view r bc'
+  | Positions _ :: r, b :: bc' => b :: bc_view r bc'
+  | _, _ => []
+  end.
 
 (* ---------- histograms ---------- *)
 Open Scope Q_scope.
@@ -681,15 +700,20 @@ Definition dec_axis (t : tree) : pyaxis :=
 Definition dec_pyview (t : tree) : pyview :=
   match t with T 0 _ => PVNone | T 2 l => PVList (map dec_ventry l) | T 3 _ => PVEllipsis | T _ l => PVTuple (map dec_ventry l) end.
 Definition run_stat_gen (shape : list Z) (view : pyview) (selt : tree) (finflags posflags : list bool) (finite positive : bool)
-           (ax : pyaxis) (ncm : Z) : tree :=
+           (ax : pyaxis) (ncm : Z) (st : Z) (bc : list bool) : tree :=
   let a := fun i => flat_index shape i in
   let s := match selt with
            | T 0 _ => SelNone
            | T 1 [mk] => let mb := to_bools mk in SelMask (fun i => nthb mb (flat_index shape i))
            | T _ l => SelSlices (map dec_slice l)
            end in
-  match gen_compute_statistic Z (list Z) (fun l => l) [] [-1] (fun c => nthb finflags c) (fun c => nthb posflags c) shape a
-          2 (fuel_for shape) s ax finite positive view ncm with
+  (* unbroadcast is only ever applied to the data read through the view (or, in the shortcut, through the slices of the state) *)
+  let bcv := match s, view with
+             | SelSlices _, PVNone => bc
+             | _, _ => bc_view (view_sel shape (view_entries view)) bc
+             end in
+  match gen_compute_statistic Z (list Z) (fun l => l) [] [-1] (fun c => nthb finflags c) (fun c => nthb posflags c) shape a (bc_unbroadcast bcv)
+          2 (fuel_for shape) st s ax finite positive view ncm with
   | Err e => err e
   | Ok (osh, r) => T 1 [zs osh; T 0 (map (fun o => zs (r o)) (box osh))]
   end.
@@ -716,8 +740,8 @@ Definition run_case (t : tree) : tree :=
       end
   | T 3 [xlo; xhi; ylo; yhi; T nx _; T ny _; T _ pts] =>
       T 1 [T 0 (map enc_q (hist2 (dec_q xlo) (dec_q xhi) (dec_q ylo) (dec_q yhi) nx ny (map dec_pt2 pts)))]
-  | T 6 [sh; vw; selt; ff; pf; T fin _; T pos _; ax; T ncm _] =>
-      run_stat_gen (to_zs sh) (dec_pyview vw) selt (to_bools ff) (to_bools pf) (negb (fin =? 0)) (negb (pos =? 0)) (dec_axis ax) ncm
+  | T 6 [sh; vw; selt; ff; pf; T fin _; T pos _; ax; T ncm _; T st _; bc] =>
+      run_stat_gen (to_zs sh) (dec_pyview vw) selt (to_bools ff) (to_bools pf) (negb (fin =? 0)) (negb (pos =? 0)) (dec_axis ax) ncm st (to_bools bc)
   | T 7 [T lg _; T haslog _; lo; hi; llo; lhi; T n _; T hasw _; T hassel _; T _ pts] =>
       let p := map dec_pt1 pts in
       let xs := map (fun '(x, lx, _, _) => (x, lx)) p in
